@@ -6,6 +6,10 @@ ALL = ["C%02d" % i for i in range(1, 21)]
 
 # property -> (level, design_ref, engine, technique, level text, level note)
 CLAIMED = {
+ "C14": ("exploration", "DESIGN.md §2 C14", "vp",
+   "bounded-exhaustive enumeration of a printf-format/argument grammar through the real blackbox encoder and decoder with exact-size heap buffers (ASan), compared with vsnprintf",
+   "All formats of up to 2 (thorough 3) conversions — the first from the full product of flags, width (incl. *), precision (incl. .*), length modifier l ll z t j and conversion d i o u x X c s p e E f F g G a A %% that C defines, the others from 14 representative conversions — with literal text of 0, 2 and 600 characters around them and extreme integer, floating and string arguments (empty, containing '%', 600 characters, NULL) are encoded with qb_vsnprintf_serialize into buffers of exactly fit-1, fit and 512 bytes and decoded with qb_vsnprintf_deserialize into buffers of 1, 16, fit and 512 bytes; the decoded text must equal vsnprintf's whenever it fits, and no byte may be touched outside either buffer.",
+   "Grammar bounded as stated; argument lists are built with the x86-64 SysV calling convention; %lc, %ls, %n and a NULL %s with a precision are outside the alphabet; a serialize return value >= the space counts as 'did not fit' (the caller's contract)."),
  "C13": ("exploration", "DESIGN.md §2 C13", "vp",
    "bounded-exhaustive enumeration of a format/message/limit grammar against the real formatter with exact-size heap buffers (ASan) and a reference formatter",
    "All target formats of up to 2 (thorough 3) items from literals, a 300-character literal and every directive % [-] [width] letter (documented letters, an unknown letter, %%, end of string), for every max_line_length value qb_log_ctl accepts from a boundary set, ellipsis on/off, message lengths around the limit and far beyond, with trailing newline: qb_log_format_set + qb_log_target_format write into an exact-size heap buffer, the result must be NUL-terminated within the limit and equal the reference formatter's line (exactly when it fits; prefix + ellipsis when cut). A second run sends log calls (incl. empty and over-long expansions, extended-information marker) through a custom and a file target.",
